@@ -1,6 +1,6 @@
 """C17: string VCs generated from the real AST of edifify_names.py (code-point arrays, z3/cvc5) + bounded stand-in."""
 import json, sys
-from props import _qb
+from props import _qb, _pv
 from vlib.report import VERIF, REPO
 from vlib.native import run_native
 LEVEL = 'other'
@@ -35,11 +35,15 @@ def run(rep, tier, seed):
             rep.violation(name, 'obligation %s is no longer discharged (%s)' % (name, detail[:200]),
                           replay={'kind': 'obligation', 'obligation': name, 'solver_output': detail[:1500]}, nfi=True)
     if not res: rep.error('zero obligations generated for C17')
+    # the sibling scan itself (over the IR heap, names as opaque values with value equality and an uninterpreted `lower`)
+    for fn, o in _pv.run_suite(rep, PID, 'edifnames', tier):
+        rep.violation(o['name'], 'obligation %s is no longer discharged (%s)' % (o['name'], (o.get('detail') or '')[:200]),
+                      replay={'kind': 'obligation', 'obligation': o['name'], 'function': fn, 'solver_output': o.get('detail')}, nfi=True)
     rep.trusted = ['pyvc/strvc.py (string VC generator), z3 5.1 / cvc5 1.0.3 / z3 4.8.12']
     rep.assumptions = ['characters are ASCII 32..126 (the property quantifies over printable names); str.isalpha/isalnum/lower modelled as the ASCII predicates',
                        'integers mathematical; CPython slice clamping as encoded in pyvc/strvc.py',
                        "the regex `_sdn_[0-9]+_$` is characterised positionally (unique suffix match); int()/str() uninterpreted up to 'str(n>=0) is a non-empty digit string'",
-                       '_conflicts_good is used through an uninterpreted predicate (its sibling loop is only exercised by the bounded tier)',
+                       '_conflicts_good is used through an uninterpreted predicate in the string proof; its body is proved separately over the IR heap (suite edifnames): True iff no element of `objects` other than obj has lower(name) or lower(EDIF.identifier) equal to the identifier -- the two models (code-point arrays / opaque values with an uninterpreted `lower`) are connected by the name of the function only',
                        '_conflicts_fix: partial correctness (its recursion is used through its own contract); termination not proved']
     _qb.run(rep, PID, tier, seed)
 
